@@ -5,6 +5,7 @@ GHOST_DEFS
 #include "contracts/io.h"
 #include "contracts/hash.h"
 #include "contracts/hashfn.h"
+#include "contracts/index.h"
 #include "extracted_zalloc.c"
 #include "src/lib/hash/hash.c"
 
@@ -103,6 +104,21 @@ void h_validate_file(void) {
     ghost_setup(&in, &zck->check_full_hash);
     int r = validate_file(zck, ZCK_LOG_WARNING);
     V_COVER(r == 1 && in.hus == 0); V_COVER(r == 1 && in.hus != 0); V_COVER(r == -1); V_COVER(r == 0 && in.err0 == 0);
+}
+
+
+/* ---- set_chunk_hash_type ---- */
+typedef struct { int h, err0, mode; int t0, s0; } IN_sc;
+V_INPUT(IN_sc)
+void h_set_chunk_hash_type(void) {
+    IN_sc in = nondet_IN_sc();
+    V_ASSUME(in.err0 >= 0 && in.err0 <= 2);
+    zckCtx *zck = calloc(1, sizeof(*zck));
+    V_ASSUME(zck != NULL);
+    zck->mode = in.mode; zck->error_state = in.err0; zck->chunk_hash_type.type = in.t0; zck->chunk_hash_type.digest_size = in.s0;
+    bool r = set_chunk_hash_type(zck, in.h);
+    V_ASSERT(!r || zck->index.digest_size == (size_t)SPEC_DIGEST_SIZE(in.h), "C13,C03.set_chunk_hash_type.digest_size_of_type");
+    V_COVER(r && in.h == 3); V_COVER(!r && in.err0 == 0); V_COVER(r && in.h == 0);
 }
 
 #ifdef VERIF_NATIVE
